@@ -30,7 +30,7 @@ CLAIMS = {
          "HIR/MIR who-may-call and typestate rules", "3.7, 4 C19"),
  "C16": ("E-VNM(.lockstep,.clone) + E-EVENT + E-UNITS: the name map's push/insert, displace/remove and free discipline on every path; the "
          "add_vars* brackets of both managers incl. the scope guard that keeps level table, var/level map and name map the same "
-         "length on every exit; add_named appends exactly one name per variable number drawn; Clone allocates fresh strings. set_var_name rejects a present name exactly when another variable owns it (E-VNM.dup) and removes a displaced name exactly when non-empty; the index's key type compares and hashes by content (E-VNM.key); the var/level maps are extended with the identity and stay mutually inverse (E-VLM). The "
+         "length on every exit; add_named appends exactly one name per variable number drawn; Clone allocates fresh strings. set_var_name rejects a present name exactly when another variable owns it (E-VNM.dup) and removes a displaced name exactly when non-empty; the index's key type compares and hashes by content (E-VNM.key); the var/level maps are extended with the identity and stay mutually inverse (E-VLM). add_vars / add_named_vars_from_map grow all three tables consistently and return exactly the new variables' range (E-VNM.addvars). The "
          "bijection over call sequences as behaviour is not decided.",
          "MIR dominance / provenance rules", "3.8, 3.5, 4 C16"),
  "C20": ("E-CFG: the configuration corners are type-checked under the fact extractor (quick: default + 3 extreme corners, "
@@ -40,7 +40,7 @@ CLAIMS = {
  "C17": ("E-RAW on linear_hashtbl::raw: inventory of writers of the free-slot counter, +1/-1 pairing with status stores, "
          "provenance of retain's successor-is-free flag, Drain's full sweep, counter assignment when the slot array is replaced, "
          "probe-loop guards, Slot::clone keeps the status word, remove frees a slot only next to a FREE successor, lookups "
-         "answer absent only on a FREE slot. The successor tested by remove is the cyclic one; reserve_rehash rebuilds the array on every path, assigns free = new_cap - len and all probes advance by one slot modulo the size (E-RAW.rehash); the element counts move in the reviewed direction in each of their 13 writers (E-RAW.len). Necessary conditions of `free <= #FREE slots` (termination of lookups, intact probe chains); set "
+         "answer absent only on a FREE slot. The successor tested by remove is the cyclic one; reserve_rehash rebuilds the array on every path, assigns free = new_cap - len and all probes advance by one slot modulo the size (E-RAW.rehash); the element counts move in the reviewed direction in each of their 13 writers (E-RAW.len). Emptiness shortcuts compare with 0 and leave without visiting slots (E-RAW.lenzero). Necessary conditions of `free <= #FREE slots` (termination of lookups, intact probe chains); set "
          "semantics over operation sequences is not decided.",
          "MIR dataflow/dominance rules with a frozen writer table", "3.8, 4 C17"),
  "C02": ("E-TABLE.{bdd,bcdd,shortcut,step} + E-WRAP + E-UNITS + E-CACHE + E-TABLE.cof + E-EVAL: the terminal/base-case table of all 8 BDD connectives and "
@@ -66,7 +66,7 @@ CLAIMS = {
          "shared store by move only; level_swap releases a node's edges before unlinking children; frozen caller sets of the "
          "node-removal primitives and their gates; Manager::gc sweeps all inner-node levels before the terminal table; the apply cache (uncounted edges) stays locked and empty "
          "between pre_gc and post_gc; node-count bookkeeping (failed allocation undone, adjusted delta stored) and the terminal "
-         "free list written back after a sweep; every removal of a node from a unique table reaches the release of the removed edge on all non-unwind paths (E-LIN.forget); every function that builds an owned edge out of a raw id/pointer is inventoried and the copying ones increment a count on every path first (E-LIN.mint). Free thresholds of reference counts are the 11 reviewed comparisons (E-LIN.rcconst); session-end hand-over and the allocation mark (E-FREELIST.handover/.mark); level_swap removes dead old children exactly once (E-TABLE.swap). try_remove_node reaches the table removal only with previous count 2, prepared manager and re-read count 1 (E-LIN.rcguard); terminal / inner-node discrimination without off-by-one or flipped tests in both managers (E-CANON.idsplit/.ptrsplit); tag-bit arithmetic of pointer-based edges (E-PTR.tagbits); return_preallocated links the rest of a chunk correctly (E-FREELIST.link). Necessary conditions of exact reference counts: no owned edge is dropped by the "
+         "free list written back after a sweep; every removal of a node from a unique table reaches the release of the removed edge on all non-unwind paths (E-LIN.forget); every function that builds an owned edge out of a raw id/pointer is inventoried and the copying ones increment a count on every path first (E-LIN.mint). Free thresholds of reference counts are the 11 reviewed comparisons (E-LIN.rcconst); session-end hand-over and the allocation mark (E-FREELIST.handover/.mark); level_swap removes dead old children exactly once (E-TABLE.swap). try_remove_node reaches the table removal only with previous count 2, prepared manager and re-read count 1 (E-LIN.rcguard); terminal / inner-node discrimination without off-by-one or flipped tests in both managers (E-CANON.idsplit/.ptrsplit); tag-bit arithmetic of pointer-based edges (E-PTR.tagbits); return_preallocated links the rest of a chunk correctly (E-FREELIST.link). Free lists end in 0 everywhere (E-FREELIST.sentinel), the thread-local slot state is used only when bound to this store (E-FREELIST.binding), node-count deltas are added (E-FREELIST.countsign). Necessary conditions of exact reference counts: no owned edge is dropped by the "
          "compiler instead of being released through the manager, on any path incl. every `?`/out-of-memory path; no slot is on two "
          "free lists. Exactness over histories is not decided.",
          "MIR drop-terminator typestate lint (rustc_private driver) + move-only dataflow + who-may-call", "3.1, 3.8, 3.5, 4 C05"),
